@@ -23,7 +23,7 @@ PROPS = {
                 preds=["AliasEqPrimary", "CalledExact", "UntouchedKeepDefault", "FrameOneOption (action property)"]),
     "C07": dict(families=["modes"], lens={"vals", "called", "as", "rest", "err"}, rand=("C07", 6000, 150000),
                 preds=["LongModeIndependent", "RewriteEquiv"]),
-    "C08": dict(families=["wrapper", "conserve", "conserve-n", "inherit"], lens={"err", "warn", "rest"}, rand=("C08", 6000, 150000),
+    "C08": dict(families=["wrapper", "conserve", "conserve-n", "inherit", "term"], lens={"err", "warn", "rest"}, rand=("C08", 6000, 150000),
                 preds=["UnknownNeverDropped"]),
     "C10": dict(families=["tree", "late-wrapper"], lens={"ran", "derr", "helpof", "rest", "writer"}, rand=("C10", 6000, 400000),
                 preds=["ExactlyOneFn", "DeepestCommand"]),
